@@ -18,11 +18,27 @@ def _find_calls(e, meth):
     return [n for n in ast.walk(e) if isinstance(n, ast.Call) and isinstance(n.func, ast.Attribute) and n.func.attr == meth]
 
 
+def _fn(repo, mod, q):
+    """the function the rules read: for EKF.forward the body with its own straight-line helper methods inlined (a split into predict() / update() is the same
+    filter), everything else as written"""
+    f = repo.func(mod, q)
+    if (mod, q) != (EKF, 'EKF.forward') or f.cls is None:
+        return f
+    from ..expr import flatten_self_calls
+    from ..core import FuncInfo
+    methods = {n: m.node for n, m in f.cls.methods.items() if n != 'forward'}
+    node = flatten_self_calls(f.node, methods)
+    if node is f.node:
+        return f
+    g = FuncInfo(f.module, f.qual, node, cls=f.cls, parent=f.parent)
+    return g
+
+
 @guarded
 def rule_innov(repo, tier):
     res = RuleResult('C13.INNOV', 'EKF: the state argument of the observation call forming the innovation derives from the '
                      'result of state_transition (the predicted state)', floor=1)
-    f = repo.func(EKF, 'EKF.forward')
+    f = _fn(repo, EKF, 'EKF.forward')
     inl = inline_straight(f.node)
     n = 0
     for st, env in inl.log:
@@ -45,6 +61,28 @@ def rule_innov(repo, tier):
                                 node=c, construct=norm_construct(c, f.node)))
     if n == 0:
         raise AnalysisError('C13.INNOV: EKF.forward no longer calls model.observation')
+    # linearisation point: the documentation takes ALL Jacobians (A, B, C, D) at the prior mean - every set_refpoint of the step receives the state the step
+    # was given, never the propagated one (re-linearising C at f(x, u) is another filter: it differs for every nonlinear observation model)
+    m = 0
+    for st, env in inl.log:
+        val = getattr(st, 'value', None) if isinstance(st, (ast.Assign, ast.Return, ast.AugAssign, ast.Expr)) else None
+        if val is None:
+            continue
+        for c in _find_calls(val, 'set_refpoint'):
+            kw = {k.arg: k.value for k in c.keywords}
+            sarg = kw.get('state', c.args[0] if c.args else None)
+            if sarg is None:
+                continue
+            m += 1
+            arg = subst(sarg, env)
+            prior = isinstance(arg, ast.Name) and arg.id == f.pos_params[1]
+            res.inst({'function': f.fq, 'linearised at': src(arg)[:80], 'the prior mean': prior}, (f.fq, 'refpoint', m))
+            if not prior and _find_calls(arg, 'state_transition'):
+                res.add(Finding('C13.INNOV', f, 'the model is (re-)linearised at `%s`, the PROPAGATED state: the Jacobians read afterwards (C, D) are not those at the prior '
+                                'mean the documented recursion uses - the posterior differs for every nonlinear observation model' % src(arg)[:70], node=c,
+                                construct='linearisation at the propagated state'))
+    if m == 0:
+        raise AnalysisError('C13.INNOV: EKF.forward no longer sets the linearisation point')
     return res
 
 
@@ -96,7 +134,7 @@ def _gain_side(res, rid, f, Kx, node):
 def rule_gain(repo, tier):
     res = RuleResult('C13.GAIN', 'EKF: gain and posterior covariance are built from the propagated covariance A P A^T + Q; '
                      'the posterior mean is predicted state + K @ innovation', floor=2)
-    f = repo.func(EKF, 'EKF.forward')
+    f = _fn(repo, EKF, 'EKF.forward')
     rets = returns_of(f.node)
     v0 = rv(f.node, rets[0]) if len(rets) == 1 else None
     if not isinstance(v0, ast.Tuple) or len(v0.elts) != 2:
@@ -404,7 +442,7 @@ def rule_inverse(repo, tier):
                      'otherwise measurement directions with small innovation variance are silently ignored; a Cholesky factor used to colour '
                      'row-shaped noise is transposed', floor=2)
     for mod, q in ((EKF, 'EKF.forward'), (UKF, 'UKF.forward')):
-        f = repo.func(mod, q)
+        f = _fn(repo, mod, q)
         calls = [c for c in paths.calls_in(f.node) if (dotted(c.func) or '').split('.')[-1] in ('pinv', 'inv', 'inverse', 'solve', 'lstsq')]
         if not calls:
             raise AnalysisError('C13.INV: %s no longer inverts the innovation covariance' % q)
@@ -452,7 +490,7 @@ def rule_sym(repo, tier):
     res = RuleResult('C13.SYM', 'EKF prediction and UKF update build their covariances from congruences X S X^T (outer factors transposes of one '
                      'another), and UKF / PF auto-covariances pair a deviation with itself', floor=2)
     for mod, q, pick in ((EKF, 'EKF.forward', 1), (UKF, 'UKF.forward', 1)):
-        f = repo.func(mod, q)
+        f = _fn(repo, mod, q)
         rets = returns_of(f.node)
         v0 = rv(f.node, rets[0]) if len(rets) == 1 else None
         if not isinstance(v0, ast.Tuple) or len(v0.elts) != 2:
@@ -621,15 +659,28 @@ def rule_time(repo, tier):
     res = RuleResult('C13.TIME', 'EKF / UKF / PF: every call of the model inside one step (set_refpoint, state_transition, observation) receives the step\'s time '
                      'argument t', floor=8)
     for mod, q in ((EKF, 'EKF.forward'), (UKF, 'UKF.forward'), (PF, 'PF.forward')):
-        f = repo.func(mod, q)
+        f = _fn(repo, mod, q)
         if 't' not in f.params:
             raise AnalysisError('C13.TIME: %s has no parameter t' % q)
+        once = {}
+        for a_ in ast.walk(f.node):
+            if isinstance(a_, ast.Assign) and len(a_.targets) == 1 and isinstance(a_.targets[0], ast.Name):
+                once.setdefault(a_.targets[0].id, []).append(a_.value)
+
+        def mentions_t(e, depth=0):
+            # the step's time, possibly through local names bound once (helper parameters after inlining: `predict$t = t`)
+            for x in ast.walk(e):
+                if isinstance(x, ast.Name):
+                    if x.id == 't':
+                        return True
+                    if depth < 4 and len(once.get(x.id, [])) == 1 and mentions_t(once[x.id][0], depth + 1):
+                        return True
+            return False
         for c in paths.calls_in(f.node):
             if not (isinstance(c.func, ast.Attribute) and c.func.attr in ('set_refpoint', 'state_transition', 'observation') and
                     (dotted(c.func.value) or '').endswith('model')):
                 continue
-            has_t = any(k.arg == 't' and any(isinstance(x, ast.Name) and x.id == 't' for x in ast.walk(k.value)) for k in c.keywords) or \
-                (len(c.args) >= 3 and any(isinstance(x, ast.Name) and x.id == 't' for x in ast.walk(c.args[2])))
+            has_t = any(k.arg == 't' and mentions_t(k.value) for k in c.keywords) or (len(c.args) >= 3 and mentions_t(c.args[2]))
             res.inst({'function': f.fq, 'call': src(c)[:60], 'receives t': has_t}, (f.fq, src(c)[:70]))
             if not has_t:
                 res.add(Finding('C13.TIME', f, '`%s` does not receive the time argument of the step: the model is evaluated / linearised at its internal clock there, at `t` '
